@@ -260,20 +260,51 @@ def ep_res_fn(Rn):
     return float(resolution(np.sqrt(2) * xi))
 
 
-def reference_info(name, f, parts_ref):
-    """resolution, condition number of the resolution sum and per-event reference vectors (from the real code)"""
-    pre = "_" + name + "__"
-    w = getattr(f, pre + "compute_particle_weights")(parts_ref)
-    if name == "ScalarProductFlow":
-        QA, QB = getattr(f, pre + "compute_event_angles_sub_events")(parts_ref, w)
-        terms = [float((np.conjugate(a) * b).real) for a, b in zip(QA, QB)]
-    else:
-        PA, PB = getattr(f, pre + "compute_event_angles_sub_events")(parts_ref, w)
-        terms = [float(np.cos(f.n_ * (a - b))) for a, b in zip(PA, PB)]
+SKIPS = {"n": 0}
+
+
+def private_resolution(name, f, parts_ref):
+    """the resolution the real object computes (name-mangled `__calculate_reference`), or None when that private
+    entry point does not exist / has another signature / returns something else.  Optional extra check only:
+    everything that gates is compared through the public integrated_flow / differential_flow."""
+    try:
+        r = getattr(f, "_" + name + "__calculate_reference")(parts_ref)
+        return float(r[0])
+    except Exception:
+        SKIPS["n"] += 1
+        return None
+
+
+def reference_info(name, f, parts_ref, case):
+    """computed by the harness from the particles (public kinematics only): an estimate of the resolution, the
+    condition number of the resolution sum (scales the tolerances), the per-event reference weights and the
+    per-event terms of the resolution sum; plus the real object's own resolution when it can be reached"""
+    n, gap, kind = case["n"], case["gap"], case["weight"]
+
+    def wq(p):
+        pt = p.pT_abs()
+        return pt if kind == "pT" else pt ** 2.0 if kind == "pT2" else pt ** n if kind == "pTn" else \
+            p.rapidity() if kind == "rapidity" else p.pseudorapidity()
+    w, terms = [], []
+    for ev in parts_ref:
+        ws = [float(wq(p)) for p in ev]
+        w.append(ws)
+        QA = sum((x * cmath.exp(1j * n * p.phi()) for x, p in zip(ws, ev) if p.pseudorapidity() >= gap), 0j)
+        QB = sum((x * cmath.exp(1j * n * p.phi()) for x, p in zip(ws, ev) if p.pseudorapidity() < -gap), 0j)
+        if name == "ScalarProductFlow":
+            terms.append((QA.conjugate() * QB).real)
+        else:
+            terms.append(math.cos(cmath.phase(QA) - cmath.phase(QB)))  # phase(0) = 0 = arctan2(0, 0)
     tot = sum(terms)
     cond = (sum(abs(t) for t in terms) / abs(tot)) if tot != 0 else float("inf")
-    res, Q = getattr(f, pre + "calculate_reference")(parts_ref)
-    return float(res), cond, Q, w, terms
+    mean = tot / len(terms) if terms else float("nan")
+    if not (mean >= 0):
+        est = float("nan")
+    elif name == "ScalarProductFlow":
+        est = 2.0 * math.sqrt(mean)
+    else:
+        est = ep_res_fn(math.sqrt(mean))
+    return est, cond, None, w, terms, private_resolution(name, f, parts_ref)
 
 
 def s2_scale(name, parts_flow, Q, wref, res):
@@ -379,6 +410,11 @@ def correspond(ctx):
             bad = f"real code raised {type(e).__name__}: {e}"
         if bad:
             ctx.brk("correspondence-broken", f"{op}: {bad}", case=_case_json(case, op))
+    if SKIPS["n"]:
+        ctx.count("skipped-no-private-access", SKIPS["n"])
+        ctx.notes.append("the optional cross-check of the resolution against the object's private __calculate_reference was "
+                         "skipped (entry point absent or changed); all gating comparisons use the public API")
+        SKIPS["n"] = 0
     ctx.assumptions.append("event-plane resolution correction (scipy brentq + Bessel) is an opaque parameter `res` of the "
                            "model; its value at the model's Rn is computed by the harness and checked against the real code's resolution")
     ctx.assumptions.append("phi -> u = exp(i n phi) is evaluated by the harness on the real Particle objects; particles with "
@@ -438,7 +474,7 @@ def _compare_phase1(op, case, pf, pr, out):
         return None
     name = "ScalarProductFlow" if op.startswith("sp") else "EventPlaneFlow"
     f = new(name, n, case["weight"], case["gap"])
-    res, cond, Q, wref, terms = reference_info(name, f, pr)
+    res, cond, Q, wref, terms, res_priv = reference_info(name, f, pr, case)
     if op == "eprn":
         if not out.startswith("ok "):
             return f"model {out}"
@@ -449,8 +485,8 @@ def _compare_phase1(op, case, pf, pr, out):
         if not vclose(rn, rn_code, tol) and not (abs(tot) < 1e-12 * max(1.0, sum(abs(t) for t in terms))):
             return f"Rn: code {rn_code!r}, model {rn!r} (terms {terms})"
         # contract of the external parameter: harness copy of the scipy part reproduces the real resolution
-        if not vclose(ep_res_fn(rn_code), res, 1e-9):
-            return f"resolution correction: harness scipy copy {ep_res_fn(rn_code)!r} vs real code {res!r}"
+        if res_priv is not None and not vclose(ep_res_fn(rn_code), res_priv, 1e-9 * (1 + min(cond, 1e8))):
+            return f"resolution correction: harness scipy copy {ep_res_fn(rn_code)!r} vs real code {res_priv!r}"
         return None
     tol = 1e-10 * (1 + min(cond, 1e8))
     scale = s2_scale(name, pf, Q, wref, res)
@@ -462,8 +498,8 @@ def _compare_phase1(op, case, pf, pr, out):
                 return f"code {real}, model {out}"
             t = [h2f(x) for x in out.split()[1:4]]
             model = [(t[0], t[1])]
-            if not vclose(t[2], res, tol):
-                return f"resolution: code {res!r}, model {t[2]!r}"
+            if res_priv is not None and not vclose(t[2], res_priv, tol):
+                return f"resolution: code {res_priv!r}, model {t[2]!r}"
         else:
             r = f.differential_flow(pf, case["edges"], case["sel"], pr, case["self_corr"])
             real = [(float(x[0]), float(x[1])) for x in r]
@@ -488,7 +524,7 @@ def _cmp_pairs(real, model, tol, scale, cond):
 
 def _compare_ep(op, case, pf, pr, out):
     f = new("EventPlaneFlow", case["n"], case["weight"], case["gap"])
-    res, cond, Q, wref, terms = reference_info("EventPlaneFlow", f, pr)
+    res, cond, Q, wref, terms, res_priv = reference_info("EventPlaneFlow", f, pr, case)
     tol = 1e-9 * (1 + min(cond, 1e8))
     scale = s2_scale("EventPlaneFlow", pf, Q, wref, res)
     with np.errstate(all="ignore"):
@@ -504,11 +540,9 @@ def _compare_ep(op, case, pf, pr, out):
             if not out.startswith("ok"):
                 return f"code {real}, model {out}"
             model = parse_pairs(out[3:])
-    if not math.isfinite(res) or not vclose(case["resval"], res, 1e-7 * (1 + min(cond, 1e8))):
-        if math.isfinite(res) or math.isfinite(case["resval"]):
-            if cond > 1e8:
-                return None
-            return f"resolution: code {res!r}, harness res(Rn_model) {case['resval']!r}"
+    if res_priv is not None and (math.isfinite(res_priv) or math.isfinite(case["resval"])) and cond <= 1e8 \
+            and not vclose(case["resval"], res_priv, 1e-7 * (1 + cond)):
+        return f"resolution: code {res_priv!r}, harness res(Rn_model) {case['resval']!r}"
     return _cmp_pairs(real, model, tol, scale, cond)
 
 
@@ -774,7 +808,7 @@ def _check_relation(name, rel, case, aux):
         return _check_qc(rel, case, aux)
     # scalar product / event plane
     f = new(name, n, case["weight"], case["gap"])
-    res, cond, Q, wref, _ = reference_info(name, f, mk(ref))
+    res, cond, Q, wref, _, _ = reference_info(name, f, mk(ref), case)
     if cond > 1e4 or not math.isfinite(res) or res == 0:
         return None  # ill-conditioned resolution: nothing can be concluded from floating point
     tol = 1e-9 * (1 + cond)
@@ -1019,6 +1053,9 @@ def search(ctx, budget_s):
         finally:
             pool_stop()
     ctx.cov["oracle_cases"] = n
+    if SKIPS["n"]:
+        ctx.count("skipped-no-private-access", SKIPS["n"])
+        SKIPS["n"] = 0
 
 
 def oracle_reuse_tables():
